@@ -990,6 +990,39 @@ SELFTEST = [
     {"name": "path-location-named", "kind": "benign",
      "edits": [("dropshot/src/extractor/path.rs", "        get_metadata::<PathType>(&ApiEndpointParameterLocation::Path)", "        let loc = ApiEndpointParameterLocation::Path;\n        get_metadata::<PathType>(&loc)")],
      "why": "behaviour-preserving: temporary named"},
+    {"name": "required-for-loop-named-flag", "kind": "benign",
+     "edits": [("dropshot/src/schema_util.rs", "                results.extend(object.properties.iter().map(\n                    |(name, schema)| {\n                        let (description, schema) =\n                            schema_extract_description(schema);\n                        StructMember {\n                            name: name.clone(),\n                            description,\n                            schema,\n                            required: required\n                                && object.required.contains(name),\n                        }\n                    },\n                ));",
+                "                for (prop_name, prop_schema) in object.properties.iter() {\n                    let (description, member_schema) =\n                        schema_extract_description(prop_schema);\n                    let listed = object.required.contains(prop_name);\n                    let member_required = if required { listed } else { false };\n                    results.push(StructMember {\n                        name: prop_name.clone(),\n                        description,\n                        schema: member_schema,\n                        required: member_required,\n                    });\n                }")],
+     "why": "behaviour-preserving: extend(iter().map(closure)) written as a for loop pushing each member, the conjunction as a named flag plus if/else; the rule reads the flag as a function of (contains, the bool parameter) on every path and finds key/name as elements of object.properties either way"},
+    {"name": "any_of-iterator-chain", "kind": "benign",
+     "edits": [("dropshot/src/schema_util.rs", "                        for schema in schemas {\n                            results.extend(schema2struct_impl(\n                                schema, generator, false,\n                            )?);\n                        }",
+                "                        let per_variant = schemas\n                            .iter()\n                            .map(|variant| schema2struct_impl(variant, generator, false))\n                            .collect::<Result<Vec<_>, _>>()?;\n                        results.extend(per_variant.into_iter().flatten());")],
+     "why": "behaviour-preserving: loop over the alternatives written as an iterator chain; the recursive call is classified by its schema argument being an element of a list, not by sitting in a loop"},
+    {"name": "any_of-iterator-chain-required", "kind": "mutant", "expect": ["C07.R6"],
+     "edits": [("dropshot/src/schema_util.rs", "                        for schema in schemas {\n                            results.extend(schema2struct_impl(\n                                schema, generator, false,\n                            )?);\n                        }",
+                "                        let per_variant = schemas\n                            .iter()\n                            .map(|variant| schema2struct_impl(variant, generator, required))\n                            .collect::<Result<Vec<_>, _>>()?;\n                        results.extend(per_variant.into_iter().flatten());")],
+     "why": "same defect as any_of-members-required, written in the iterator-chain idiom"},
+    {"name": "from_mime_type-if-chain", "kind": "benign",
+     "edits": [(A, "        match mime_type {\n            CONTENT_TYPE_OCTET_STREAM => Ok(Self::Bytes),\n            CONTENT_TYPE_JSON => Ok(Self::Json),\n            CONTENT_TYPE_URL_ENCODED => Ok(Self::UrlEncoded),\n            CONTENT_TYPE_MULTIPART_FORM_DATA => Ok(Self::MultipartFormData),\n            _ => Err(mime_type.to_string()),\n        }",
+                "        if mime_type == CONTENT_TYPE_JSON {\n            return Ok(Self::Json);\n        }\n        if mime_type == CONTENT_TYPE_OCTET_STREAM {\n            return Ok(Self::Bytes);\n        }\n        let parsed = if mime_type == CONTENT_TYPE_URL_ENCODED {\n            Self::UrlEncoded\n        } else if mime_type == CONTENT_TYPE_MULTIPART_FORM_DATA {\n            Self::MultipartFormData\n        } else {\n            return Err(mime_type.to_string());\n        };\n        Ok(parsed)")],
+     "why": "behaviour-preserving: match on string constants written as early returns plus an if / else-if chain; the literal -> variant table is read off the path facts"},
+    {"name": "gen_openapi-headers-for-loop", "kind": "benign",
+     "edits": [(A, "                let headers = endpoint\n                    .response\n                    .headers\n                    .iter()\n                    .map(|header| {\n",
+                "                let mut headers = indexmap::IndexMap::new();\n                for header in endpoint.response.headers.iter() {\n                    let (header_name, header_item) = {\n"),
+               (A, "                    })\n                    .collect();\n\n                let response = openapiv3::Response {", "                    };\n                    headers.insert(header_name, header_item);\n                }\n\n                let response = openapiv3::Response {")],
+     "why": "behaviour-preserving: iter().map(closure).collect() written as a for loop nested in the loop over endpoints; `required` is still a plain copy of the flag of an element of response.headers"},
+    {"name": "response_metadata-field-assignments", "kind": "benign",
+     "edits": [(H, "        ApiEndpointResponse {\n            schema: T::Body::content_metadata(),\n            success: Some(T::STATUS_CODE),\n            description: Some(T::DESCRIPTION.to_string()),\n            ..Default::default()\n        }",
+                "        let mut documented = ApiEndpointResponse::default();\n        documented.schema = T::Body::content_metadata();\n        documented.success = Some(T::STATUS_CODE);\n        documented.description = Some(T::DESCRIPTION.to_string());\n        documented")],
+     "why": "behaviour-preserving: struct literal with ..Default::default() written as field assignments on a default value"},
+    {"name": "route-handler-literal-HandlerError", "kind": "mutant", "expect": ["C07.R7"],
+     "edits": [(H, "        let funcparams = RequestExtractor::from_request(&rqctx, request)\n            .await\n            .map_err(<HandlerType::Error>::from)?;",
+                "        let extracted = RequestExtractor::from_request(&rqctx, request).await;\n        let funcparams = match extracted {\n            Ok(funcparams) => funcparams,\n            Err(extract_error) => {\n                return Err(HandlerError::Dropshot(extract_error));\n            }\n        };")],
+     "why": "extraction failures bypass the endpoint's declared error type: the 4xx body is dropshot's, not the documented custom error schema"},
+    {"name": "route-handler-match-into", "kind": "benign",
+     "edits": [(H, "        let funcparams = RequestExtractor::from_request(&rqctx, request)\n            .await\n            .map_err(<HandlerType::Error>::from)?;",
+                "        let extracted = RequestExtractor::from_request(&rqctx, request).await;\n        let funcparams = match extracted {\n            Ok(funcparams) => funcparams,\n            Err(extract_error) => {\n                let endpoint_error = <HandlerType::Error>::from(extract_error);\n                return Err(endpoint_error.into());\n            }\n        };")],
+     "why": "behaviour-preserving: map_err(From::from)? written as match / return Err(e.into())"},
     {"name": "load_body-inline-expected", "kind": "benign",
      "edits": [("dropshot/src/extractor/body.rs", "    let expected_content_type = rqctx.endpoint.body_content_type.clone();\n", ""),
                ("dropshot/src/extractor/body.rs", "    let content = match (expected_content_type, body_content_type) {", "    let content = match (rqctx.endpoint.body_content_type.clone(), body_content_type) {")],
